@@ -1,6 +1,7 @@
 /- Driver command: the control-flow graph pipeline. -/
 import EtkVerif.Driver.AnnCmd
 import EtkVerif.Cfg.Model
+import EtkVerif.Cfg.PipelineDef
 namespace EtkVerif.Driver
 open EtkVerif Annot Smt Cfg
 
@@ -30,15 +31,7 @@ def showAnswer : Answer → String
   | .ask q => " ".intercalate (q.map BTerm.render)
   | .panic _ => "PANIC"
 
-/-- blocks of a byte string as `ecfg` builds them: disassemble, `push_all`, `take` ++ `finish` -/
-def blocksOf (bytes : List Nat) : List Blocks.Block :=
-  let t := Gen.cancun
-  let items := (Disasm.decodeAll t bytes).1
-  let (s, _) := Blocks.pushAll t {} items
-  let (s, done) := Blocks.take s
-  match Blocks.finish s with
-  | (_, .block (some b)) => done ++ [b]
-  | _ => done
+def blocksOf (bytes : List Nat) : List Blocks.Block := Pipeline.blocks bytes
 
 /-- `cfg <hex>`: `init <graph> queries <edge>=<answer>;…` -/
 def cmdCfg (args : List String) : String :=
